@@ -205,7 +205,10 @@ func setupHost(dir string) error {
 		// a remote that only has a url (no fetch refspec), as `git config remote.mirror.url ...` leaves it
 		{host, "config", "remote.mirror.url", remote},
 		{dir, "clone", "-q", remote, filepath.Join(dir, "peer")},
-		{filepath.Join(dir, "peer"), "config", "user.name", "Peer Dev"},
+		// the classic slip: name and address pasted whole into user.name. Stock git copes (it strips
+		// angle brackets when it writes an ident); whatever git-bug takes from here must too
+		{host, "config", "user.name", "Host Dev <dev@example.org>"},
+		{filepath.Join(dir, "peer"), "config", "user.name", "Peer Dev <peer@example.org>"},
 		{filepath.Join(dir, "peer"), "config", "user.email", "peer@example.org"},
 		// a tag that exists on the remote only, on a commit the host already has: a fetch that
 		// follows tags would create refs/tags/remote-only on the host
